@@ -1,4 +1,5 @@
 import NutilsVerif.Model.C12
+import NutilsVerif.Model.C12Slice
 open NutilsVerif NutilsVerif.Proto NutilsVerif.C12
 
 def mergeErrName : MergeErr → String
@@ -43,8 +44,21 @@ def parseDim (s : String) : Option (Nat × Nat × Int × Option (List Nat) × Bo
     | _, _, _, _ => none
   | _ => none
 
+/-- `-` = `None`, else a python int -/
+def parseOptInt (s : String) : Option (Option Int) :=
+  if s == "-" then some none else s.toInt?.map some
+
 def handle (line : String) : String :=
   match fields line with
+  | ["getitem", n, start, stop, step] =>
+    match n.toNat?, parseOptInt start, parseOptInt stop, parseOptInt step with
+    | some n, some start, some stop, some step =>
+      match basisGetSlice n start stop step with
+      | .self => "self"
+      | .masked idx => s!"masked|{showNats idx}"
+      | .generic => "generic"
+      | .valueError => "valueerror"
+    | _, _, _, _ => "bad-request"
   | ["merge", n, condense, sets] =>
     match n.toNat?, parseBool condense, parseIntRows sets with
     | some n, some condense, some sets =>
